@@ -112,7 +112,7 @@ func inRange(o Op, sh [][]int64) bool {
 		return int64(len(sh[u]))
 	}
 	switch o.Op {
-	case "At", "SetAt", "ConstAt":
+	case "At", "SetAt", "ConstAt", "SetVar":
 		return in(o.I)
 	case "Swap":
 		return in(o.I) && in(o.J)
@@ -292,6 +292,9 @@ func propCheck(c Case) (fail string, at int) {
 			expP = []int64{sh[o.T][o.I]}
 		case "SetAt":
 			sh[o.T][o.I] = o.X
+			writes(o.T)
+		case "SetVar":
+			sh[o.T][o.I] = o.X + VARW
 			writes(o.T)
 		case "ConstAt":
 			expP = []int64{sh[o.T][o.I]}
